@@ -95,9 +95,9 @@ class C10(Prop):
         return bool(case['zeros'])
 
     def finding_key(self, case, clause, detail):
-        if clause == 'mass-sums-to-total' and (detail or {}).get('max_abs_potential', 0) >= 1e15:
-            # float cancellation regime of belief propagation (potentials beyond 1/eps, see C08): keyed separately, still a violation
-            return 'bounded:%s:potentials>=1e15' % clause
+        if clause == 'mass-sums-to-total' and (detail or {}).get('max_abs_potential', 0) >= 1e7:
+            # float cancellation regime of belief propagation (relative normalisation error ~ eps * max|potential|, see C08): keyed separately, still a violation
+            return 'bounded:%s:potentials>=1e7' % clause
         return 'bounded:%s' % clause
 
     def run_case(self, case):
